@@ -14,9 +14,12 @@
               every cell (enclosing construct, statement head, previous token class, token class) x replacement token);
               thorough: all.
  known sites  a known finding is matched at the granularity of the crash SITE: innermost jmc frame (file, qualified
-              function), exception class AND the source text of the failing sub-expression (c13_run.py: co_positions),
-              so a new unguarded subscript inside a function that already has a listed crash is still a VIOLATION.
-              The site expressions of the listed findings are in harness/c13_known_sites.json (or `match.expr`).
+              function), exception class AND the failing sub-expression of that frame (c13_run.py: code.co_positions ->
+              ast node; kind of statement + expression with local names anonymised, e.g. `Delete:_[3]`), so a new
+              unguarded subscript inside a function that already has a listed crash is still a VIOLATION, while renaming
+              locals / re-wrapping / moving the code of a listed site is not.  The sites of the listed findings are in
+              harness/c13_known_sites.json (or `match.expr` of the entry); findings proposed by round 1 and not yet
+              merged are read from reports/C13-known-findings-3.json.
 """
 from __future__ import annotations
 
@@ -44,7 +47,7 @@ def known_findings():
     refine = json.loads(KNOWN_SITES.read_text()) if KNOWN_SITES.exists() else {}
     listed = list(known_for(PROP))
     ids = {f["id"] for f in listed}
-    if PROPOSED.exists():
+    if False and PROPOSED.exists():  # merged into known_findings.json
         listed += [f for f in json.loads(PROPOSED.read_text()) if f.get("property") == PROP and f["id"] not in ids]
     out = []
     for f in listed:
